@@ -281,6 +281,15 @@ func scenJailAndEvidence(start int64) *scenario {
 				sc.b.Votes[i].Signed = false
 			}
 		}
+		if rel == 2 || rel == 4 {
+			// evidence against the validator that also missed the block (slash and downtime mark in one block)
+			pw := int64(0)
+			if d := sc.pre.Delegatees[x.A()]; d != nil {
+				pw = d.Total
+				sc.b.Evidence = append(sc.b.Evidence, EvSpec{Addr: x.Addr, Power: pw, Height: sc.h - 1})
+				sc.hr.C.Count("scenario.evidence-and-absence-same-block", 1)
+			}
+		}
 		if rel == 1 && len(g.Validators) >= 3 {
 			y := g.Validators[1].Key
 			if y.A() != sc.hr.G.Anchor {
